@@ -34,12 +34,12 @@ def reach(nodes: list[dict]) -> dict[str, set[str]]:
     return closure
 
 
-def convex_subset(rng: random.Random, nodes: list[dict]) -> list[str]:
+def convex_subset(rng: random.Random, nodes: list[dict], seed_node: str | None = None) -> list[str]:
     r = reach(nodes)
     names = [n["name"] for n in nodes]
     middle = [x for x in names if r[x] and any(x in r[y] for y in names)]      # has both a predecessor and a successor
-    s = {rng.choice(middle or names)}
-    for _ in range(rng.choice([0, 0, 1, 1, 2])):
+    s = {seed_node or rng.choice(middle or names)}
+    for _ in range(0 if seed_node else rng.choice([0, 0, 1, 1, 2])):
         s.add(rng.choice(names))
     changed = True
     while changed:                      # close under "lies on a path between two members"
@@ -163,6 +163,19 @@ class C05(Prop):
                 nodes = nested[gi]["nodes"]
                 if len(nodes) < 1:
                     break
+                forced_mode = None
+                if d == 0 and rng.random() < 0.5:
+                    # a bound name with several consumers: wrap ONE of them (the binding then moves inside while a consumer stays outside)
+                    bnames = [k for k, _ in nested[gi].get("bound", [])]
+                    cands = [(k, [n["name"] for n in nodes if k in node_io(n)[0]]) for k in bnames]
+                    cands = [(k, cs) for k, cs in cands if len(cs) >= 2]
+                    if cands:
+                        k, cs = rng.choice(cands)
+                        sub = convex_subset(rng, nodes, seed_node=rng.choice(cs))
+                        if any(c not in sub for c in cs) and len(sub) < len(nodes):
+                            cuts.append(sub)
+                            nested = nest(nested, gi, sub, rng, f"w{d}", rename=rng.random() < 0.5, bind_inner=True, bind_shared=True)
+                            continue
                 subset = convex_subset(rng, nodes)
                 for _ in range(8):      # prefer cuts crossed by edges in both directions
                     if len(subset) < len(nodes) and _crossed(nodes, set(subset)):
